@@ -71,7 +71,7 @@ RateVerdict(e) ==
       fails ==
         BindFails(e.teams) \cup AliasFails(e.teams)
         \cup (IF W("C13") THEN C13Rate(e) ELSE {})
-        \cup (IF W("C14") THEN C14ModelRO(e) ELSE {})
+        \cup (IF W("C14") THEN C14ModelRO(e) \cup C14ArgsUntouched(e) ELSE {})
         \cup (IF W("C02") /\ wf /\ DistinctObjects(e.teams) /\ Ok(e) THEN C02(e, X, "float") ELSE {})
         \cup (IF W("C01") /\ comp /\ Ok(e) THEN (IF needX THEN C01(e, X, "float") ELSE {"C01.no_result"}) ELSE {})
         \cup (IF W("C06") /\ comp /\ dom /\ Ok(e) THEN C06(e, tau, lim, "float") ELSE {})
